@@ -34,14 +34,14 @@ def run(tier):
     rep.phase("split scenarios")
     scen = [s for s in tdsfam.tlc_scenarios(rep) if len(s["segs"]) > 1 and len(s["fail"]) <= 1]
     rnd.shuffle(scen)
-    chosen = scen[:110 if quick else 5000]
+    chosen = scen[:110 if quick else 1500]
     real = []
     for k, s in enumerate(chosen):
         sc = tdsfam.to_real(s, snapshot=(k % (15 if quick else 3) == 2))
         sc["compare_single"] = not s["fail"]
         real.append(sc)
     # three segments / repeated interruption at the same time / split one step after an event
-    for k, s in enumerate([x for x in chosen if not x["fail"]][:30 if quick else 600]):
+    for k, s in enumerate([x for x in chosen if not x["fail"]][:30 if quick else 300]):
         s3 = dict(s)
         taus = [t["tau"] for t in s["timers"] if 0 < t["tau"] < 40]
         cut = (taus[0] if taus else 20)
@@ -49,8 +49,8 @@ def run(tier):
         sc = tdsfam.to_real(s3, snapshot=(k % (20 if quick else 4) == 3))
         sc["compare_single"] = True
         real.append(sc)
-    fl = [s for s in tdsfam.float_schedules(200 if quick else 3000, rnd, tf_max=2.0 if quick else 4.0) if len(s["segs"]) > 1]
-    fl = fl[:24 if quick else 800]
+    fl = [s for s in tdsfam.float_schedules(200 if quick else 1500, rnd, tf_max=2.0 if quick else 4.0) if len(s["segs"]) > 1]
+    fl = fl[:24 if quick else 300]
     for k, s in enumerate(fl):
         s["compare_single"] = True
         if k % (10 if quick else 3) == 1:
